@@ -49,15 +49,19 @@ def leafOut (nullOnErr : Bool) (out : GoVal F × Bool) : GoVal F × Bool :=
   (if out.2 && nullOnErr then .nil else out.1, out.2)
 
 /-- `resolve` for non-object types; returns the response value and the number of errors -/
-def resolveData (ext : Ext F) (tb : Scalar → Table) (nullOnErr : Bool) : TRef → Data F → ROut F × Nat
+def resolveData (ext : Ext F) (tb : Scalar → Table) (nullOnErr fastCopies : Bool) : TRef → Data F → ROut F × Nat
   | _, .leaf .nil => (.leaf .nil, 0)                     -- `IsNil(obj)`: passed through
-  | .nonNull t, d => resolveData ext tb nullOnErr t d
+  | .nonNull t, d => resolveData ext tb nullOnErr fastCopies t d
   | .list t, .list xs =>
-    let rs := xs.map (resolveData ext tb nullOnErr t)
+    let rs := xs.map (resolveData ext tb nullOnErr fastCopies t)
     (.list (rs.map (·.1)), (rs.map (·.2)).sum)
-  | .list _, .slice .fast xs => (.list (xs.map .leaf), 0)  -- D18: elements never coerced
+  | .list t, .slice .fast xs =>
+    if fastCopies then (.list (xs.map .leaf), 0)          -- D18: elements never coerced
+    else
+      let rs := xs.map (fun x => resolveData ext tb nullOnErr fastCopies t (.leaf x))
+      (.list (rs.map (·.1)), (rs.map (·.2)).sum)
   | .list t, .slice .reflect xs =>
-    let rs := xs.map (fun x => resolveData ext tb nullOnErr t (.leaf x))
+    let rs := xs.map (fun x => resolveData ext tb nullOnErr fastCopies t (.leaf x))
     (.list (rs.map (·.1)), (rs.map (·.2)).sum)
   | .list _, .leaf _ => (.leaf .nil, 1)                  -- "%T is not a list type"
   | .scalar s, .leaf v => let (r, e) := leafOut nullOnErr (coerce ext (tb s) v); (.leaf r, if e then 1 else 0)
